@@ -189,6 +189,7 @@ impl Conn {
         let (r0, w0) = {
             let mut s = self.sh.borrow_mut();
             s.next_rd = Some(op);
+            s.calls_in_op = 0;
             (s.recv_calls, s.write_calls)
         };
         let r = catch_unwind(AssertUnwindSafe(|| self.c.try_read()));
@@ -206,6 +207,7 @@ impl Conn {
         let (r0, w0) = {
             let mut s = self.sh.borrow_mut();
             s.next_wr = Some(op);
+            s.calls_in_op = 0;
             (s.recv_calls, s.write_calls)
         };
         let r = catch_unwind(AssertUnwindSafe(|| self.c.try_write()));
